@@ -98,6 +98,25 @@ def sv_terms(sv):
     return [sv.t] if sv.t is not None else []
 
 
+def legal_pattern(t):
+    """z3 triggers may not contain ite or boolean connectives"""
+    bad = (z3.Z3_OP_ITE, z3.Z3_OP_AND, z3.Z3_OP_OR, z3.Z3_OP_NOT, z3.Z3_OP_IMPLIES, z3.Z3_OP_EQ, z3.Z3_OP_DISTINCT)
+    seen = set()
+    stack = [t]
+    while stack:
+        e = stack.pop()
+        if e.get_id() in seen:
+            continue
+        seen.add(e.get_id())
+        if z3.is_quantifier(e):
+            return False
+        if z3.is_app(e):
+            if e.decl().kind() in bad:
+                return False
+            stack.extend(e.children())
+    return True
+
+
 def fresh_name(prefix):
     return "%s!%d" % (prefix, next(_counter))
 
